@@ -389,10 +389,8 @@ def c01_6(cx):
     gen_gt = Cmp(r"id::Id::generation\(.*metadata.*\.id\)$", ">", r"^id::Id::generation\(\$4\)$", desc="slot generation > requested generation")
     gen_le = Cmp(r"id::Id::generation\(.*metadata.*\.id\)$", "<=", r"^id::Id::generation\(\$4\)$", desc="slot generation <= requested generation")
     with cx.only("C03"):
-        for s in cx.some_calls(b, r"VerifyResult::changed$", 1, "changed() in interned maybe_changed_after"):
-            cx.only_if(b, s, gen_gt, "interned: Changed only if the slot was reused (generation increased)")
-    for s in cx.some_calls(b, r"VerifyResult::unchanged$", 1, "unchanged() in interned maybe_changed_after"):
-        cx.only_if(b, s, gen_le, "interned: Unchanged only if the generation did not increase")
+        cx.returns_only_if(b, {"Changed"}, gen_gt, "interned: Changed only if the slot was reused (generation increased)")
+    cx.returns_only_if(b, {"Unchanged"}, gen_le, "interned: Unchanged only if the generation did not increase")
     # function ingredient: hot / cold verified / after re-execution
     hot = cx.fn(MH + r"maybe_changed_after_hot$")
     gt = Cmp(r"^\$1\.revisions\.changed_at$", ">", r"^\$4$", desc="changed_at > revision")
